@@ -6,9 +6,8 @@ Strings travel percent-encoded (one token, no spaces): printable ASCII passes th
 `~~` = empty list; lists are `,`-separated, lists of lists `;`-separated.
 
   rt <name> <ts> <uni> <eq> <sl> <slstr> <commentLines> <classLabel> <values> <panel> <real text|~~>
-        → w=<text|E:..> p=<result|-> pf=<result|-> pr=<result|->   (write, then parse what was written;
-          pr = the parser model on the file the real writer produced; pf = no-label
-          files parsed after replacing the header line `@class_label false` by `@classLabel false`)
+        → w=<text|E:..> p=<result|-> pr=<result|->   (write, then parse what was written;
+          pr = the parser model on the file the real writer produced)
   ts <text> | arff <T/F> <text> | tsv <text>  → ts=<result> | arff=<result> | tsv=<result>
   fmt <ts> <arff> <tsv|~~>                    → ts=<result> arff=<result> tsv=<result|->
   load <train> <test>                         → train=<result> test=<result> none=<result>
@@ -112,15 +111,8 @@ def handle (toks : List String) : String :=
       | none => "bad-op"
       | some pr =>
         match write o panel vals with
-        | .error e => s!"w={showErr e} p=- pf=- pr={pr}"
-        | .ok text =>
-          -- pf: the same panel through the writer with the repaired no-label header line
-          let pf := if cl.isEmpty then
-              (match writeFixed o panel vals with
-               | .ok t2 => showRes (parseTs t2)
-               | .error e => showErr e)
-            else "-"
-          s!"w={enc text} p={showRes (parseTs text)} pf={pf} pr={pr}"
+        | .error e => s!"w={showErr e} p=- pr={pr}"
+        | .ok text => s!"w={enc text} p={showRes (parseTs text)} pr={pr}"
     | _, _, _, _, _, _, _, _, _, _ => "bad-op"
   | ["ts", text] =>
     match dec text with
